@@ -48,6 +48,7 @@ def _run_one(args):
                     max_paths=opts.get('max_paths', 20000))
         out = r.summary()
         out['models'] = {k: c.models for k, c in r.checks.items() if c.models}
+        out['witnesses'] = r.witnesses
         out['functions'] = sorted(r.stats.get('functions', {}).keys())
         out['mir_statements'] = 0
         return idx, out
@@ -132,6 +133,14 @@ def main(argv=None):
         out['abstractions'] = ob.abstractions
         out['kind'] = ob.kind
         v = out['verdict']
+        # fidelity run: the executor's prediction for a concrete witness of the normal path must be reproduced by the real contracts
+        wit = out.get('witnesses') or {}
+        wlabel = 'ok' if 'ok' in wit else (sorted(wit)[0] if wit else None)
+        if wlabel is not None and v in ('unsat', 'sat'):
+            fr = replayer.fidelity(pid, ob, wit[wlabel])
+            out['fidelity'] = dict(fr, witness=wlabel)
+            if fr['status'] == 'differs':
+                inconclusive.append((ob.name, 'the executor and the real contracts disagree on a concrete run of the normal path (translator validation)', fr.get('detail')))
         if v == 'unsat':
             continue
         if v in ('inconclusive', 'vacuous'):
